@@ -56,6 +56,7 @@ class State:
         self.next_oid = [0]
         self.last_emplaced = {}
         self.contents = {}        # container term -> list of element objects known to be stored there
+        self.symstore = {}        # writes through symbolic lvalues: ('fld', base, name) -> value
 
     def fork(self):
         s = State()
@@ -68,6 +69,7 @@ class State:
         s.next_oid = self.next_oid          # shared counter keeps oids unique across forks
         s.last_emplaced = dict(self.last_emplaced)
         s.contents = {k: list(v) for k, v in self.contents.items()}
+        s.symstore = dict(self.symstore)
         return s
 
     def new_obj(self, cls, origin=None):
@@ -264,8 +266,11 @@ class Sym:
             st.heap[base[1]].fields[name] = v
         else:
             st.effects.append(('write', ('fld', base, name), v))
+            st.symstore[('fld', base, name)] = v
 
     def load_field(self, st, base, name):
+        if ('fld', base, name) in st.symstore:
+            return st.symstore[('fld', base, name)]
         if base[0] == 'obj' and base[1] in st.heap:
             o = st.heap[base[1]]
             if name in o.fields:
